@@ -44,6 +44,7 @@ type Gen struct {
 	lemmas     []*LemmaDecl
 	globalNames []string
 	callersDecl []*CallersDecl
+	sameTypes   []*SameTypeDecl
 	globalNonNil map[*ssa.Global]bool
 	subCount   int
 	subIDs     map[string]int
